@@ -1461,10 +1461,8 @@ impl<'a, C: OrdColl> OrdRun<'a, C> {
                     Ok(h) if h != EMPTY_REF => {
                         self.held.insert(k, h);
                     }
-                    Ok(_) => {
-                        self.out.fail(17, "handle-of-new-entry", i, format!("{}: first_index_less({}) is EMPTY_REF right after insert({})", C::NAME, k, k));
-                        return Step::Stop;
-                    }
+                    // no handle to hold: that is C08's business, not C17's
+                    Ok(_) => {}
                     Err(e) => return self.on_call_err(i, e, &[17], "first_index_less (bulk)"),
                 }
             }
